@@ -190,7 +190,7 @@ VW_THOROUGH = "{10002, 10256, 20004, 30008, 30064, 40002, 50016, 50256, 60004, 6
 def run_c01(ck):
     hb = _build(ck)
     consts = ({"MaxNStruct": 3, "MaxNSig": 4, "Palette": "{1, 2, 3}", "VW": VW_QUICK} if ck.quick else
-              {"MaxNStruct": 4, "MaxNSig": 5, "Palette": "{1, 2, 3}", "VW": VW_THOROUGH})
+              {"MaxNStruct": 3, "MaxNSig": 5, "Palette": "{1, 2, 3}", "VW": VW_THOROUGH})
     mc_cfg = ck.cfg_with("MC_HvValidate.cfg", consts)
     _mc(ck, "MC_HvValidate", mc_cfg, required_actions=[
         "DecideHonest", "DecideHdr", "DecideHdrRebind", "DecideDah", "DecideVals", "DecideCommit", "DecideSig",
